@@ -140,8 +140,9 @@ func c02Dump(nc *nats.Conn, prefix string) string {
 
 // ---- end-to-end cases "E;tok;..." : the REAL sync client (client.NewSyncClient under a Manager on the downstream
 // instance, period 1 s, real-time forwarding, NATS reconnect handling) between a second pair of instances.
-//   a:<op> / b:<op>  as above;  x  the upstream instance is stopped and started again on the same file and ports;
-//   d / e  the sync node is disabled / enabled;  w  wait until both sides show the same subtree (at most 30 s)
+//
+//	a:<op> / b:<op>  as above;  x  the upstream instance is stopped and started again on the same file and ports;
+//	d / e  the sync node is disabled / enabled;  w  wait until both sides show the same subtree (at most 30 s)
 var c02EA, c02EB *busServer
 
 func c02EStart() {
